@@ -1572,6 +1572,14 @@ func (t *FnTrans) siteOrdinal(s *SiteSpec, kind string, in ssa.Instruction) int 
 				if kind == "mapread" {
 					text, ok = t.srcText(x.Pos()), true
 				}
+			case *ssa.IndexAddr:
+				if kind == "index" {
+					text, ok = t.srcText(x.Pos()), true
+				}
+			case *ssa.Index:
+				if kind == "index" {
+					text, ok = t.srcText(x.Pos()), true
+				}
 			case *ssa.Return:
 				if kind == "return" {
 					text, ok = "", true
@@ -1626,6 +1634,8 @@ func (t *FnTrans) siteMatchesInstr(s *SiteSpec, in ssa.Instruction) bool {
 		kind = "return"
 	case *ssa.Lookup:
 		kind = "mapread"
+	case *ssa.IndexAddr, *ssa.Index:
+		kind = "index"
 	}
 	if kind == "call" && s.Kind == "callret" {
 		kind = "callret"
